@@ -1,0 +1,23 @@
+//go:build verif
+
+package worker
+
+import fpgo "github.com/TeaEntityLab/fpGo/v2"
+
+func verifPoint(point string, obj interface{}) {
+	if h := fpgo.VerifHook; h != nil {
+		h(point, obj)
+	}
+}
+
+// VerifCountersLocked returns workerCount and workerBusy; the caller holds the pool lock.
+func (workerPoolSelf *DefaultWorkerPool) VerifCountersLocked() (int, int) {
+	return workerPoolSelf.workerCount, workerPoolSelf.workerBusy
+}
+
+// VerifCounters is VerifCountersLocked under the read lock.
+func (workerPoolSelf *DefaultWorkerPool) VerifCounters() (int, int) {
+	workerPoolSelf.lock.RLock()
+	defer workerPoolSelf.lock.RUnlock()
+	return workerPoolSelf.workerCount, workerPoolSelf.workerBusy
+}
